@@ -221,7 +221,12 @@ def finish(prop, tier, seed, repo, hs, results, extra, wall, args):
         if exit_code == 0:
             exit_code = 2
     if args.update_baseline and exit_code == 0:
-        baseline_all[prop] = {o["name"]: {"status": o["status"], "havoc": o["havoc"], "kind": o["kind"], "tier": hmap[o["harness"]].tier} for o in ob_rows}
+        new = {o["name"]: {"status": o["status"], "havoc": o["havoc"], "kind": o["kind"], "tier": hmap[o["harness"]].tier} for o in ob_rows}
+        if tier == "quick":   # keep the entries that only the thorough tier generates
+            for n, e in baseline.items():
+                if e.get("tier") == "thorough" and n not in new:
+                    new[n] = e
+        baseline_all[prop] = new
         with open(BASELINE, "w") as fh:
             json.dump(baseline_all, fh, indent=1, sort_keys=True)
     if not args.only and not os.environ.get("VCHECK_NO_EVIDENCE"):
